@@ -109,11 +109,23 @@ Proof. induction zp as [|[s x] zp IH]; intros acc m Hz Ha H; simpl in H.
         apply (In_tlookup _ x0 s0). apply in_or_app; left. apply tlookup_In; auto. Qed.
 
 Lemma obj_idx_maps_spec tb ix l : obj_idx_maps tb ix = Ok l ->
-  Forall2 (fun bl m => blk_map (combine bl ix) [] = Ok m) tb l.
-Proof. revert l; induction tb as [|bl tb IH]; intros l H; simpl in H; [inversion H; constructor|].
-  destruct (blk_map (combine bl ix) []) as [m|c] eqn:E; simpl in H; [|discriminate].
-  destruct (obj_idx_maps tb ix) as [l'|c]; simpl in H; [|discriminate].
-  inversion H; subst. constructor; auto. Qed.
+  forall bl m, In bl tb -> blk_map (combine bl ix) [] = Ok m -> In m l.
+Proof. revert l; induction tb as [|b tb IH]; intros l H bl m Hin Hm; simpl in H; [contradiction|].
+  destruct (obj_idx_maps tb ix) as [l'|c]; simpl in H; [|discriminate]. inversion H; subst; clear H.
+  destruct Hin as [->|Hin].
+  - rewrite Hm. left; reflexivity.
+  - specialize (IH l' eq_refl bl m Hin Hm). destruct (blk_map (combine b ix) []); [right|]; auto. Qed.
+
+(* a block read off a spin function never gives an index two spins *)
+Lemma blk_map_total (g : index -> sp) zp : forall acc, (forall s x, In (s, x) zp -> g x = s) ->
+  (forall x s, In (x, s) acc -> g x = s) -> exists m, blk_map zp acc = Ok m.
+Proof. induction zp as [|[s x] zp IH]; intros acc Hz Ha; simpl; [eexists; reflexivity|].
+  assert (Hz' : forall s0 x0, In (s0, x0) zp -> g x0 = s0) by (intros; apply Hz; right; auto).
+  destruct (tlookup acc x) as [s'|] eqn:El.
+  - apply tlookup_In in El. rewrite <- (Ha x s' El), (Hz s x (or_introl eq_refl)).
+    assert (E : sp_eqb s s = true) by (apply sp_eqb_eq; reflexivity). rewrite E. apply IH; auto.
+  - apply IH; [auto|]. intros x0 s0 Hin. apply in_app_or in Hin. destruct Hin as [Hin|[Hin|[]]]; [auto|].
+    inversion Hin; subst. apply Hz; left; auto. Qed.
 
 Lemma smap_of_agrees m g : (forall x s, In (x, s) m -> g x = s) -> agrees (smap_of m) g.
 Proof. intros H. unfold smap_of. split; simpl; intros x Hx; apply in_map_iff in Hx;
@@ -171,11 +183,12 @@ Proof. intros Hims H g [Hg1 Hg2]. unfold term_block in H.
             exists m, In m (map smap_of (filter (tm_compat tsp) (fst lm))) /\ agrees m g).
   { intros lm Hlm. apply (proj1 (sort_desc_In ims lm)) in Hlm.
     destruct (term_idx_maps_spec tgt objs ims Hims lm Hlm) as [ix [tb [Hin Hm]]].
-    apply obj_idx_maps_spec in Hm. pose proof (Hg2 ix tb Hin) as Hbl.
+    pose proof (Hg2 ix tb Hin) as Hbl.
     assert (Hex : exists m, In m (fst lm) /\ blk_map (combine (map g ix) ix) [] = Ok m).
-    { clear - Hm Hbl. induction Hm as [|b m tb l Hb Hm IH]; [contradiction|].
-      destruct Hbl as [<-|Hbl]; [exists m; split; [left; auto|auto]|].
-      destruct (IH Hbl) as [m' [H1 H2]]. exists m'. split; [right; auto|auto]. }
+    { destruct (blk_map_total g (combine (map g ix) ix) []) as [m Hm'].
+      - intros s x Hsx. symmetry. apply (in_combine_map g ix x s Hsx).
+      - intros ? ? [].
+      - exists m. split; [|exact Hm']. eapply obj_idx_maps_spec; eauto. }
     destruct Hex as [m [Hm1 Hm2]].
     destruct (blk_map_agrees g (combine (map g ix) ix) [] m) as [I1 _]; [|intros ? ? []|exact Hm2|].
     { intros s x Hsx. symmetry. apply (in_combine_map g ix x s Hsx). }
